@@ -399,3 +399,138 @@ def remrule_fault_phase(ck, lr):
             ck.violation("RemRule of a disabled rule failed (storage write %d of it refused) and reported it; the rule is still there and is now ENABLED (ruleEnabled=%s, an event dispatched %d rule(s)) (%s state)" % (
                 nth, en.get("ok"), len(ev.get("rules") or []), c["state"]), {"case": cc, "impl": outs}, tag="remrule-fault")
 
+
+
+# ----------------------------------------------------------------------------- a write that the add hook refuses
+
+_RH_PATS = [{"a": 1}, {"a": "?x"}, {"b": "?y"}, {"a": {"n": "?z"}}, {"a": 1, "b": "?y"}, {"a": "?x", "c": {"d": "?w"}}]
+_RH_EVENTS = [{"a": 1}, {"a": 2}, {"b": 1}, {"a": {"n": 3}}, {"a": 1, "b": 2}, {"a": 7, "c": {"d": 1}}]
+
+
+def _rh_rule(rng, pat=None, sched=False):
+    v = rng.randint(1, 99)
+    act = {"code": "(%d)" % v, "verif_tmpl": {"t": "lit", "v": v}}
+    if sched:
+        return {"schedule": rng.choice(["+1h", "0 0 1 1 *"]), "action": act}
+    return {"when": {"pattern": copy.deepcopy(pat if pat is not None else rng.choice(_RH_PATS))}, "action": act}
+
+
+def _rh_sorted(v):
+    # rules, search results and values come out of Go maps: order is not part of the answer
+    if isinstance(v, dict):
+        return {k: _rh_sorted(x) for k, x in v.items()}
+    if isinstance(v, list):
+        return sorted((_rh_sorted(x) for x in v), key=canon)
+    return v
+
+
+def _rh_strip(o):
+    return canon(_rh_sorted({k: v for k, v in (o or {}).items() if k not in ("now", "now2", "t0_ms", "t1_ms", "writes", "msg")}))
+
+
+def refused_hook_history(rng, state):
+    """(ops with refused writes, indexes of the refused ones)"""
+    rids, fids = ["r1", "r2", "r3"], ["f1", "f2"]
+    stored = {}          # id -> the `when` pattern of a stored event rule (None: something else is stored)
+    ops, refused = [], []
+    n = rng.randint(5, 14)
+    for _ in range(n):
+        x = rng.random()
+        if x < 0.30:
+            i = rng.choice(rids); p = rng.choice(_RH_PATS)
+            ops.append({"op": "addRule", "loc": "a", "id": i, "rule": _rh_rule(rng, p)}); stored[i] = p
+        elif x < 0.40:
+            i = rng.choice(fids + rids[:1])
+            ops.append({"op": "addFact", "loc": "a", "id": i, "fact": {"k": rng.randint(1, 5), "tag": rng.choice(["x", "y"])}}); stored[i] = None
+        elif x < 0.46:
+            i = rng.choice(rids); ops.append({"op": "remRule", "loc": "a", "id": i}); stored.pop(i, None)
+        elif x < 0.50:
+            i = rng.choice(fids); ops.append({"op": "remFact", "loc": "a", "id": i}); stored.pop(i, None)
+        elif x < 0.55:
+            ops.append({"op": "enableRule", "loc": "a", "id": rng.choice(rids), "enable": rng.random() < 0.5})
+        elif x < 0.75:
+            # the refused write: over a stored id (same pattern, another pattern, a scheduled rule, a plain fact) or a new id
+            i = rng.choice(list(stored) or rids) if rng.random() < 0.8 else rng.choice(rids + fids)
+            y = rng.random()
+            if y < 0.3 and stored.get(i) is not None:
+                op = {"op": "addRule", "loc": "a", "id": i, "rule": _rh_rule(rng, stored[i])}
+            elif y < 0.55:
+                op = {"op": "addRule", "loc": "a", "id": i, "rule": _rh_rule(rng)}
+            elif y < 0.75:
+                op = {"op": "addRule", "loc": "a", "id": i, "rule": _rh_rule(rng, sched=True)}
+            else:
+                op = {"op": "addFact", "loc": "a", "id": i, "fact": {"k": rng.randint(1, 5), "tag": "z"}}
+            op["refuse"] = True
+            refused.append(len(ops)); ops.append(op)
+        elif x < 0.90:
+            ops.append({"op": "event", "loc": "a", "event": copy.deepcopy(rng.choice(_RH_EVENTS))})
+        elif x < 0.95:
+            ops.append({"op": "search", "loc": "a", "pattern": rng.choice([{"k": "?v"}, {"tag": "x"}, {"tag": "z"}, {"k": "?v", "tag": "?t"}]), "inherited": False})
+        else:
+            ops.append({"op": "getRule", "loc": "a", "id": rng.choice(rids)})
+    if rng.random() < 0.2:
+        ops.append({"op": "reload", "loc": "a"})
+    for e in _RH_EVENTS:
+        ops.append({"op": "event", "loc": "a", "event": copy.deepcopy(e)})
+    ops += [{"op": "listRules", "loc": "a"}, {"op": "search", "loc": "a", "pattern": {"k": "?v"}, "inherited": False},
+            {"op": "search", "loc": "a", "pattern": {"tag": "?t"}, "inherited": False}]
+    ops += [{"op": "ruleEnabled", "loc": "a", "id": i} for i in rids] + [{"op": "getRule", "loc": "a", "id": i} for i in rids]
+    return ops, refused
+
+
+def refused_hook_phase(ck, lr, rng, n, tag="refused-hook"):
+    """A write that the state's add hook refuses (the hook of a cron service that cannot take the rule) is reported and changes nothing:
+    every later answer -- the rules an event dispatches, what searches and gets return, enabled flags, the location rebuilt from storage --
+    is the answer of the same history without the refused writes. Both runs are the real code (no model): the oracle is the property."""
+    cases = []
+    directed = [
+        # the replaced event rule stays dispatched when the refused value is a scheduled rule / a fact / a rule with the same pattern
+        [{"op": "addRule", "loc": "a", "id": "r1", "rule": _rh_rule(rng, {"a": "?x"})}, {"op": "addRule", "loc": "a", "id": "r2", "rule": _rh_rule(rng, {"a": "?x"})},
+         dict({"op": "addRule", "loc": "a", "id": "r1", "rule": _rh_rule(rng, sched=True)}, refuse=True), {"op": "event", "loc": "a", "event": {"a": 1}}],
+        [{"op": "addRule", "loc": "a", "id": "r1", "rule": _rh_rule(rng, {"a": "?x"})},
+         dict({"op": "addRule", "loc": "a", "id": "r1", "rule": _rh_rule(rng, {"a": "?x"})}, refuse=True), {"op": "event", "loc": "a", "event": {"a": 1}}],
+        [{"op": "addRule", "loc": "a", "id": "r1", "rule": _rh_rule(rng, {"a": "?x"})},
+         dict({"op": "addFact", "loc": "a", "id": "r1", "fact": {"k": 1}}, refuse=True), {"op": "event", "loc": "a", "event": {"a": 1}},
+         {"op": "search", "loc": "a", "pattern": {"k": "?v"}, "inherited": False}],
+        [{"op": "addFact", "loc": "a", "id": "f1", "fact": {"k": 1, "tag": "x"}},
+         dict({"op": "addFact", "loc": "a", "id": "f1", "fact": {"k": 2, "tag": "z"}}, refuse=True),
+         {"op": "search", "loc": "a", "pattern": {"tag": "x"}, "inherited": False}, {"op": "search", "loc": "a", "pattern": {"tag": "z"}, "inherited": False}],
+    ]
+    hs = []
+    for st in ("indexed", "linear"):
+        for ops in directed:
+            ops = copy.deepcopy(ops)
+            hs.append((st, ops, [k for k, o in enumerate(ops) if o.get("refuse")]))
+    for k in range(n):
+        st = "indexed" if k % 3 != 2 else "linear"
+        ops, refused = refused_hook_history(rng, st)
+        if refused:
+            hs.append((st, ops, refused))
+    for st, ops, refused in hs:
+        base = {"kind": "loc", "state": st, "storage": "mem", "locs": ["a"], "refuseHook": True}
+        cases.append(dict(base, ops=ops))
+        cases.append(dict(base, ops=[o for k, o in enumerate(ops) if k not in refused]))
+    outs = run_cases(lr.drv, cases)
+    reported = 0
+    for j, (st, ops, refused) in enumerate(hs):
+        a, b = outs[2 * j].get("outs") or [], outs[2 * j + 1].get("outs") or []
+        ck.count({"refused": [ops[k]["op"] for k in refused], "s": st, "n": len(ops)}, nontrivial=True)
+        lr.stats["refused_hook_cases"] += 1
+        if len(a) != len(ops) or len(b) != len(ops) - len(refused):
+            ck.violation("a history with writes refused by the add hook did not run to its end (%s state): %s" % (st, canon(outs[2 * j])[:300]),
+                         {"case": cases[2 * j], "impl": outs[2 * j]}, tag=tag)
+            continue
+        kept = [k for k in range(len(ops)) if k not in refused]
+        bad = None
+        for k in refused:
+            if a[k].get("err") is None:
+                bad = (k, "the refused write was acknowledged: %s" % _rh_strip(a[k])[:200]); break
+        if bad is None:
+            for kb, k in enumerate(kept):
+                if _rh_strip(a[k]) != _rh_strip(b[kb]):
+                    bad = (k, "op %d (%s) answers %s; without the refused write(s) it answers %s" % (k, ops[k]["op"], _rh_strip(a[k])[:300], _rh_strip(b[kb])[:300])); break
+        if bad is not None:
+            reported += 1
+            if reported <= 6:
+                ck.violation("a write refused by the add hook changed the location (%s state, refused ops %s): %s" % (st, refused, bad[1]),
+                             {"case": cases[2 * j], "without_refused": cases[2 * j + 1], "impl": a, "impl_without": b}, tag=tag)
